@@ -64,6 +64,30 @@ func planC14entry(c *Ctx, run int64) *Plan {
 	return p
 }
 
+func init() {
+	pd := props["C14"]
+	pd.Checks = append(pd.Checks, &CheckDef{
+		Name:    "corpus",
+		NumRuns: func(c *Ctx) int64 { return 1 },
+		Plan: func(c *Ctx, run int64) *Plan {
+			return &Plan{Prop: "C14", Check: "corpus", Seed: c.Seed, Run: run}
+		},
+		Exec: func(x *X) {
+			// every well-formed source document (shipped examples and the synthetic variants) must
+			// build without panicking; a panic here would otherwise silently shrink the corpus
+			for _, d := range x.C.Corpus.Docs {
+				x.Case("corpus|" + d.Name)
+				if d.PanicStack != "" {
+					site := panicSite(d.PanicStack)
+					x.Violate("panic@"+site, "building the well-formed document %s panicked: %s\n  at %s", d.Name, d.Err, site)
+				}
+			}
+			x.R.Nontrivial = true
+		},
+		Exhaustive: func(c *Ctx) bool { return true },
+	})
+}
+
 func execC14entry(x *X) {
 	d := x.C.Corpus.Get(x.P.Str["doc"])
 	if d == nil {
